@@ -10,6 +10,9 @@ echo "##### confirm $id ($crate)"
 /verif/tools/confirm_seed.sh "$wt" "$out" "$crate" $CONFIRM_ARGS
 echo "##### detect $id with $bin $*"
 cd /tmp/rvscratch/seedval/repo && git checkout -q -- . && git apply "$out/patch.diff" && git diff --stat | tail -1
+# refresh the scratch harness from /verif/harness (sources may have been strengthened since the scratch copy was made)
+rsync -a --exclude target --exclude .cargo /verif/harness/ /tmp/rvscratch/seedval/harness/
+grep -rl '"/repo/' /tmp/rvscratch/seedval/harness --include=Cargo.toml | xargs -r sed -i 's#"/repo/#"/tmp/rvscratch/seedval/repo/#g'
 cd /tmp/rvscratch/seedval/harness && cargo build --release --offline -p "$bin" 2>&1 | grep -E "^error|Finished" | tail -2
 for chk in "$@"; do
   VERIF_SEED=${VERIF_SEED:-1} /tmp/rvscratch/seedval/target/release/$bin $chk quick 2>&1 | grep -E "VIOLATION|KNOWN|SUMMARY|INCONCL" | cut -c1-230 | head -6
